@@ -96,12 +96,49 @@ fn filter_stream(r: &mut Rng, n: usize, w: &mut dyn std::io::Write) {
 }
 
 // ---------------------------------------------------------------- texts
+// The tokenizer keeps a piece iff its UTF-8 BYTE length is >= 2 (after NFKC + to_lowercase), so the
+// alphabet has tokens on both sides of that threshold for which char count and byte count disagree.
 const WORDS: &[&str] = &[
     "alpha", "beta", "gamma", "delta", "rust", "memory", "video", "frame", "index", "search", "Query", "SKETCH", "Filter", "bloom",
-    "x", "I", "a", "42", "7", "2024", "v2", "r2d2", "ab", "ZZ", "caf\u{e9}", "na\u{ef}ve", "stra\u{df}e", "\u{fb01}ne", "\u{2167}", "\u{130}stanbul",
-    "\u{65e5}\u{672c}\u{8a9e}", "\u{3b1}\u{3b2}\u{3b3}", "\u{5d0}\u{5d1}", "e\u{301}cole", "\u{ff21}\u{ff22}", "\u{00bd}", "\u{1f600}", "o\u{2019}neil", "snake_case", "kebab-case", "dot.ted",
+    // 1 char / 1 byte: dropped
+    "x", "I", "a", "7",
+    // 2 chars / 2 bytes
+    "ab", "ZZ", "42", "v2", "a1",
+    // 1 char / 2 bytes: kept
+    "\u{e0}", "\u{e9}", "\u{df}", "\u{436}", "\u{3b1}", "\u{5d0}", "\u{f1}", "\u{c9}",
+    // 1 char / 3 bytes: kept
+    "\u{65e5}", "\u{e01}", "\u{8a9e}", "\u{3042}", "\u{20ac}",
+    // 1 char / 4 bytes: kept (no NFKC mapping)
+    "\u{10348}", "\u{20000}", "\u{10437}", "\u{1040f}",
+    // 2 chars / 3, 4, 6, 8 bytes
+    "\u{e9}a", "\u{e0}\u{e9}", "\u{65e5}\u{672c}", "\u{10348}\u{20000}", "a\u{e0}",
+    // NFKC changes the length: ligature (1 char -> 2), full-width (3 bytes -> 1), fraction, squared units, roman numeral,
+    // mathematical alphanumerics (4 bytes -> 1), decomposed accents (2 chars -> 1 char / 2 bytes)
+    "\u{fb01}", "\u{fb01}ne", "\u{ff21}", "\u{ff21}\u{ff22}", "\u{bd}", "\u{338f}", "\u{2167}", "\u{1d4b3}", "\u{1d7d9}", "e\u{301}", "a\u{300}", "e\u{301}cole", "\u{132}",
+    // lower-casing changes the length: capital sharp s (3 bytes -> 2), dotted capital I (-> i + combining dot, the
+    // dot is a separator), final sigma, Kelvin sign
+    "\u{1e9e}", "\u{130}", "\u{130}stanbul", "stra\u{df}e", "STRA\u{1e9e}E", "\u{39f}\u{394}\u{39f}\u{3a3}", "\u{212a}", "\u{3a3}",
+    "2024", "r2d2", "caf\u{e9}", "na\u{ef}ve", "\u{65e5}\u{672c}\u{8a9e}", "\u{3b1}\u{3b2}\u{3b3}", "\u{5d0}\u{5d1}", "\u{1f600}", "o\u{2019}neil", "snake_case", "kebab-case", "dot.ted",
 ];
-const SEPS: &[&str] = &[" ", " ", " ", "  ", ", ", ". ", "\n", "\t", "-", "_", "/", "!", "\u{3000}", "\u{2014}", "; "];
+const SEPS: &[&str] = &[" ", " ", " ", " ", "  ", ", ", ". ", "\n", "\t", "-", "_", "/", "!", "; ", ",", ";", "?", "(", ")", "\"", "'",
+    "\u{3000}", "\u{2014}", "\u{a0}", "\u{2003}", "\u{2028}", "\u{200b}", "\u{b7}", "\u{bf}", "\u{60c}", "\u{3001}", "\u{1f600}"];
+const MB_CHARS: &[char] = &['\u{e0}', '\u{e9}', '\u{df}', '\u{436}', '\u{3b1}', '\u{65e5}', '\u{672c}', '\u{e01}', '\u{10348}', '\u{20000}', '\u{10437}', 'a', 'z', '7', '\u{1e9e}', '\u{ff21}', '\u{fb01}'];
+
+/// texts run first on every seed: each token shape alone, between ASCII tokens, repeated, with punctuation and
+/// non-ASCII white space around it
+const CORPUS: &[&str] = &[
+    "a", "x y z", "I", "7",
+    "\u{e0}", "\u{e9}", "\u{df}", "\u{436}", "\u{c9}",
+    "\u{65e5}", "\u{e01}", "\u{3042}",
+    "\u{10348}", "\u{20000}", "\u{1040f}",
+    "ab", "a1", "\u{e9}a", "\u{e0}\u{e9}", "\u{65e5}\u{672c}", "\u{10348}\u{20000}",
+    "alpha \u{e0} beta", "the \u{e9} of it", "foo \u{65e5} bar", "x \u{e0} y", "rust \u{10348} memory \u{20000} video", "alpha \u{df} beta \u{436} gamma \u{e01} delta",
+    "\u{e0} \u{e0} \u{e0} \u{e0}", "\u{e0}, \u{e0}; \u{e0}! \u{e9} \u{e9}", "\u{65e5} \u{65e5} \u{65e5} alpha alpha \u{65e5}", "\u{e9} \u{e9} a a a \u{e9}\u{e9}",
+    "\u{fb01}", "\u{ff21}", "\u{ff21}\u{ff22}", "\u{bd}", "\u{338f}", "\u{2167}", "\u{1d4b3}", "\u{1d4b3}\u{1d4b4}", "e\u{301}", "a\u{300} e\u{301}", "\u{132}",
+    "\u{1e9e}", "\u{130}", "\u{130}stanbul", "STRA\u{1e9e}E stra\u{df}e", "\u{39f}\u{394}\u{39f}\u{3a3}", "\u{212a}", "\u{3a3}",
+    "\u{e0},\u{e9};\u{df}", "\u{e0}\u{a0}\u{e9}", "\u{e0}\u{2003}\u{e9}\u{3000}\u{df}", "\u{e0}\u{2028}\u{e9}", "\u{e0}\u{200b}\u{e9}", "\u{bf}\u{e0}?", "\u{e0}_\u{e9}", "(\u{e0})", "\u{e0}\u{60c}\u{e9}\u{3001}\u{65e5}", "\u{e0}\u{1f600}\u{e9}",
+    "", " ", "?!", "a b c", "- _ -",
+];
 
 fn gen_text(r: &mut Rng) -> String {
     let target = match r.below(40) {
@@ -116,10 +153,17 @@ fn gen_text(r: &mut Rng) -> String {
     } as usize;
     let vocab_n = if target > 400 { r.range(3, 12) } else { match r.below(4) { 0 => r.range(1, 4), 1 => r.range(4, 12), _ => WORDS.len() as u64 } } as usize;
     let vocab: Vec<String> = (0..vocab_n).map(|_| {
-        if r.chance(1, 3) { // synthetic word, so that vocabularies differ between texts
-            let l = r.range(1, 9) as usize;
-            (0..l).map(|_| *r.pick(b"abcdefghijklmnopqrstuvwxyzABCDEFXYZ0123456789") as char).collect()
-        } else { r.pick(WORDS).to_string() }
+        match r.below(6) {
+            0 | 1 => { // synthetic ASCII word, so that vocabularies differ between texts
+                let l = r.range(1, 9) as usize;
+                (0..l).map(|_| *r.pick(b"abcdefghijklmnopqrstuvwxyzABCDEFXYZ0123456789") as char).collect()
+            }
+            2 => { // synthetic word of 1-3 characters of 1-4 bytes each
+                let l = r.range(1, 3) as usize;
+                (0..l).map(|_| *r.pick(MB_CHARS)).collect()
+            }
+            _ => r.pick(WORDS).to_string(),
+        }
     }).collect();
     let mut s = String::new();
     if r.chance(1, 8) { s.push_str(*r.pick(SEPS)); }
@@ -142,49 +186,107 @@ fn entry_t(e: &SketchEntry) -> T {
                 T::N(e.term_weight_sum as u128), T::N(e.flags.bits() as u128), T::N(e.length_hint as u128)])
 }
 
+/// tag for a token by (characters, bytes): which side of the byte-length threshold, and whether the two counts differ
+fn shape_tag(t: &str) -> String {
+    let c = t.chars().count(); let b = t.len();
+    format!("tok-{}c{}b", if c >= 3 { "3+".to_string() } else { c.to_string() }, if b >= 5 { "5+".to_string() } else { b.to_string() })
+}
+
+/// the property, checked on the implementation alone: EVERY token the implementation's own tokenizer emits for
+/// the text is reported as possibly present by the entry generate_sketch made for that text
+fn no_false_negative(text: &str, e: &SketchEntry, variant: SketchVariant) -> Option<String> {
+    for t in tokenize_for_sketch(text) {
+        let h = hash_token(&t);
+        let c = catch_unwind(AssertUnwindSafe(|| term_filter_maybe_contains(&e.term_filter, h)));
+        if !matches!(c, Ok(true)) {
+            return Some(format!("sketch-false-negative: token {:?} ({} chars, {} bytes) of text {:?} is reported absent ({:?}) by the text's own {:?} term filter",
+                t, t.chars().count(), t.len(), text.chars().take(60).collect::<String>(), c.ok(), variant));
+        }
+        // the way the filter is consulted by find_candidates: the token as a one-token query must overlap
+        let q = QuerySketch::from_query(&t, variant);
+        if q.token_count == 1 && !e.term_filter_maybe_overlaps(&q.term_filter) {
+            return Some(format!("sketch-false-negative: one-token query {:?} does not overlap the term filter of text {:?}", t, text.chars().take(60).collect::<String>()));
+        }
+    }
+    None
+}
+
+fn sketch_case(w: &mut dyn std::io::Write, text: &str, variant: SketchVariant, fid: u64, extra: &[&str]) {
+    let tokens = tokenize_for_sketch(text);
+    let mut distinct: Vec<&String> = vec![];
+    for t in &tokens { if !distinct.contains(&t) { distinct.push(t); } }
+    let table: Vec<(Vec<u8>, u64)> = distinct.iter().map(|t| (t.as_bytes().to_vec(), hash_token(t))).collect();
+    let weights = compute_token_weights(&tokens, None);
+    let got = catch_unwind(AssertUnwindSafe(|| generate_sketch(fid, text, variant, None)));
+    let mut viol = None;
+    let out_e = match &got {
+        Err(_) => { viol = Some("sketch-panic: generate_sketch panicked".to_string()); panic_t() }
+        Ok(e) => {
+            viol = no_false_negative(text, e, variant);
+            if e.frame_id != fid && viol.is_none() { viol = Some("sketch-frame-id: generate_sketch returned another frame id".to_string()); }
+            ok_t(entry_t(e))
+        }
+    };
+    let input = T::Tup(vec![T::N(fid as u128), T::N(variant_n(variant)),
+        T::L(tokens.iter().map(|t| T::H(t.as_bytes().to_vec())).collect()),
+        T::L(table.iter().map(|(k, h)| T::Tup(vec![T::H(k.clone()), T::N(*h as u128)])).collect())]);
+    let output = T::Tup(vec![T::L(weights.iter().map(|(h, wt)| T::Tup(vec![T::N(*h as u128), T::Z(*wt as i128)])).collect()), out_e]);
+    let nt = tokens.len();
+    let mut tags = vec![format!("{:?}", variant), format!("tokens{}", match nt { 0 => "0", 1..=9 => "1-9", 10..=48 => "10-48", 49..=51 => "49-51", 52..=400 => "52-400", _ => "2500+" }),
+                        format!("distinct{}", match distinct.len() { 0 => "0", 1..=3 => "1-3", 4..=6 => "4-6", _ => "7+" })];
+    if !text.is_ascii() { tags.push("unicode".into()); }
+    if nt > distinct.len() + 2 { tags.push("repeats".into()); }
+    let mut shapes: Vec<String> = distinct.iter().map(|t| shape_tag(t)).collect();
+    shapes.sort(); shapes.dedup();
+    tags.extend(shapes);
+    if distinct.iter().any(|t| t.chars().count() == 1) { tags.push(if distinct.len() == 1 { "single-char-token-alone".into() } else { "single-char-token-among-others".into() }); }
+    tags.extend(extra.iter().map(|s| s.to_string()));
+    emit(w, "sketch", &Case { input, output, violation: viol, nontrivial: nt > 0, tags, key: key_of(&[text.as_bytes(), &[variant_n(variant) as u8], &fid.to_le_bytes()]) });
+}
+
 fn sketch_stream(r: &mut Rng, n: usize, w: &mut dyn std::io::Write) {
+    for text in CORPUS {
+        for v in [SketchVariant::Small, SketchVariant::Medium, SketchVariant::Large] { sketch_case(w, text, v, 5, &["corpus"]); }
+    }
     for _ in 0..n {
         let text = gen_text(r);
         let variant = gen_variant(r);
         let fid = match r.below(6) { 0 => 0, 1 => u64::MAX, 2 => r.next(), _ => r.below(1000) };
-        let tokens = tokenize_for_sketch(&text);
-        let mut distinct: Vec<&String> = vec![];
-        for t in &tokens { if !distinct.contains(&t) { distinct.push(t); } }
-        let table: Vec<(Vec<u8>, u64)> = distinct.iter().map(|t| (t.as_bytes().to_vec(), hash_token(t))).collect();
-        let weights = compute_token_weights(&tokens, None);
-        let got = catch_unwind(AssertUnwindSafe(|| generate_sketch(fid, &text, variant, None)));
-        let mut viol = None;
-        let out_e = match &got {
-            Err(_) => { viol = Some("sketch-panic: generate_sketch panicked".to_string()); panic_t() }
-            Ok(e) => {
-                for t in &distinct {
-                    let h = hash_token(t);
-                    let c = catch_unwind(AssertUnwindSafe(|| term_filter_maybe_contains(&e.term_filter, h)));
-                    if !matches!(c, Ok(true)) {
-                        viol = Some(format!("sketch-false-negative: token {:?} of the text is reported absent ({:?}) by the text's own {:?} term filter", t, c.ok(), variant));
-                        break;
-                    }
-                    // the way the filter is consulted by find_candidates: a one-token query must overlap
-                    let q = QuerySketch::from_query(t, variant);
-                    if q.token_count == 1 && !e.term_filter_maybe_overlaps(&q.term_filter) {
-                        viol = Some(format!("sketch-false-negative: one-token query {:?} does not overlap the text's term filter", t));
-                        break;
-                    }
-                }
-                if e.frame_id != fid && viol.is_none() { viol = Some("sketch-frame-id: generate_sketch returned another frame id".to_string()); }
-                ok_t(entry_t(e))
-            }
-        };
-        let input = T::Tup(vec![T::N(fid as u128), T::N(variant_n(variant)),
-            T::L(tokens.iter().map(|t| T::H(t.as_bytes().to_vec())).collect()),
-            T::L(table.iter().map(|(k, h)| T::Tup(vec![T::H(k.clone()), T::N(*h as u128)])).collect())]);
-        let output = T::Tup(vec![T::L(weights.iter().map(|(h, wt)| T::Tup(vec![T::N(*h as u128), T::Z(*wt as i128)])).collect()), out_e]);
-        let nt = tokens.len();
-        let mut tags = vec![format!("{:?}", variant), format!("tokens{}", match nt { 0 => "0", 1..=9 => "1-9", 10..=48 => "10-48", 49..=51 => "49-51", 52..=400 => "52-400", _ => "2500+" }),
-                            format!("distinct{}", match distinct.len() { 0 => "0", 1..=3 => "1-3", 4..=6 => "4-6", _ => "7+" })];
-        if !text.is_ascii() { tags.push("unicode".into()); }
-        if nt > distinct.len() + 2 { tags.push("repeats".into()); }
-        emit(w, "sketch", &Case { input, output, violation: viol, nontrivial: nt > 0, tags, key: key_of(&[text.as_bytes(), &[variant_n(variant) as u8], &fid.to_le_bytes()]) });
+        sketch_case(w, &text, variant, fid, &[]);
+    }
+}
+
+/// tokenize_for_sketch against the model's split + byte-length rule; NFKC and to_lowercase (oracles in the model)
+/// are applied here with the same crate, is_alphanumeric is supplied as the table of alphanumeric code points
+fn tok_case(w: &mut dyn std::io::Write, text: &str, extra: &[&str]) {
+    use unicode_normalization::UnicodeNormalization;
+    let norm: String = text.nfkc().collect::<String>().to_lowercase();
+    let cps: Vec<u32> = norm.chars().map(|c| c as u32).collect();
+    let mut alnum: Vec<u32> = norm.chars().filter(|c| c.is_alphanumeric()).map(|c| c as u32).collect();
+    alnum.sort(); alnum.dedup();
+    let toks = tokenize_for_sketch(text);
+    // what the property relies on: a token is never empty / one byte, and is made of alphanumeric characters only
+    let mut viol = None;
+    if let Some(t) = toks.iter().find(|t| t.len() < 2 || !t.chars().all(|c| c.is_alphanumeric())) { viol = Some(format!("tokenizer-shape: token {:?} is shorter than 2 bytes or not alphanumeric", t)); }
+    let mut tags: Vec<String> = toks.iter().map(|t| shape_tag(t)).collect();
+    tags.sort(); tags.dedup();
+    if norm != text { tags.push("normalisation-changes-text".into()); }
+    if norm.chars().count() != text.chars().count() { tags.push("normalisation-changes-length".into()); }
+    tags.extend(extra.iter().map(|s| s.to_string()));
+    let input = T::Tup(vec![T::L(cps.iter().map(|c| T::N(*c as u128)).collect()), T::L(alnum.iter().map(|c| T::N(*c as u128)).collect())]);
+    let output = T::L(toks.iter().map(|t| T::L(t.chars().map(|c| T::N(c as u32 as u128)).collect())).collect());
+    emit(w, "tok", &Case { input, output, violation: viol, nontrivial: !cps.is_empty(), tags, key: key_of(&[text.as_bytes()]) });
+}
+
+fn tok_stream(r: &mut Rng, n: usize, w: &mut dyn std::io::Write) {
+    for text in CORPUS { tok_case(w, text, &["corpus"]); }
+    for wd in WORDS { tok_case(w, wd, &["word"]); }
+    let mut k = 0;
+    while k < n {
+        let text = gen_text(r);
+        if text.len() > 2500 { continue; }
+        tok_case(w, &text, &[]);
+        k += 1;
     }
 }
 
@@ -351,6 +453,12 @@ fn track_case(w: &mut dyn std::io::Write, r: &mut Rng, track: SketchTrack, ops: 
     cur.seek(SeekFrom::End(0)).unwrap();
     let wr = write_sketch_track(&mut cur, &track);
     let mut viol: Option<String> = None;
+    // tracks built from texts: the entries as inserted must already report every token of their text
+    if let Some(texts) = &texts {
+        for (i, tx) in texts.iter().enumerate() {
+            if i < ops.len() && viol.is_none() { viol = no_false_negative(tx, &ops[i], track.variant); }
+        }
+    }
     let mut file = cur.into_inner();
     let written = file[pre.len().min(file.len())..].to_vec();
     let (offset, length) = match &wr {
@@ -399,6 +507,13 @@ fn track_case(w: &mut dyn std::io::Write, r: &mut Rng, track: SketchTrack, ops: 
             }
         }
     }
+    // a track that is read back unchanged must still report every token of its texts
+    if let (None, None, Some(texts), Ok(Ok(back))) = (&differs, &viol, &texts, &rd) {
+        let got: Vec<&SketchEntry> = back.iter().collect();
+        for (i, tx) in texts.iter().enumerate() {
+            if i < got.len() && viol.is_none() { viol = no_false_negative(tx, got[i], back.variant).map(|v| v + " (after write + read)"); }
+        }
+    }
     if let (Some(d), None) = (&differs, &viol) {
         let class = if k_ids { "frame-ids-not-stored" } else if k_shape { "entry-shape-not-stored" } else if k_small { "small-variant-drops-fields" } else { "roundtrip-differs" };
         viol = Some(format!("{}: sketch track ({:?}, {} entries) is not read back as written: {}{}", class, track.variant, orig.len(), d, lost));
@@ -426,6 +541,13 @@ fn track_stream(r: &mut Rng, n: usize, w: &mut dyn std::io::Write) {
         let mut ops = vec![];
         for (i, tx) in texts.iter().enumerate() { let e = generate_sketch(i as u64, tx, v, None); ops.push(e.clone()); t.insert(e); }
         track_case(w, r, t, ops, vec![name.into()], Some(texts.iter().map(|s| s.to_string()).collect()));
+    }
+    {   // a Medium track that must round-trip, whose texts hold one-character multi-byte tokens
+        let texts = ["alpha \u{e0} beta \u{65e5} gamma", "\u{e9} \u{e9} delta \u{10348} rust \u{df} memory", "\u{436}, \u{e01}; \u{20000} video frame"];
+        let mut t = SketchTrack::new(SketchVariant::Medium);
+        let mut ops = vec![];
+        for (i, tx) in texts.iter().enumerate() { let e = generate_sketch(i as u64, tx, SketchVariant::Medium, None); ops.push(e.clone()); t.insert(e); }
+        track_case(w, r, t, ops, vec!["witness-medium-multibyte".into()], Some(texts.iter().map(|s| s.to_string()).collect()));
     }
     for _ in 0..n {
         let (track, ops, tags) = build_track(r, None);
@@ -477,6 +599,7 @@ pub fn run(seed: u64, n: usize, w: &mut dyn std::io::Write) {
     let mut r = Rng::new(seed ^ 0xC39);
     filter_stream(&mut r, n, w);
     sketch_stream(&mut r, n, w);
+    tok_stream(&mut r, (n / 3).max(20), w);
     idf_stream(&mut r, (n / 4).max(20), w);
     track_stream(&mut r, (n / 2).max(20), w);
     read_stream(&mut r, (n / 3).max(20), w);
